@@ -28,4 +28,4 @@ Deliver, in the directory {out}/ :
   2. demo.rs     - a self-contained Rust integration test file (it will be copied to tests/demo_seed.rs and run with `cargo test --offline --test demo_seed`) that uses only the public API of the `stam` crate, PASSES on the unchanged library and FAILS (assertion failure or panic) with your change applied. Include at least one control test that passes in both cases.
   3. meta.json   - {{"property": "{prop}", "summary": "<what the change is>", "needs": "<what exactly is needed for the breakage to manifest and what does NOT expose it>", "files": [...], "ran": ["<commands you ran and their results>"]}}
 
-Before finishing you MUST verify yourself, in the worktree: (1) clean tree + demo passes; (2) with the patch the full existing suite passes; (3) with the patch the demo fails. Then restore the worktree to the clean state (git checkout -- . ; remove tests/demo_seed.rs). Keep the change small (a few lines to a few dozen). Report briefly what you did.""")
+Before finishing you MUST verify yourself, in the worktree: (1) clean tree + demo passes; (2) with the patch the full existing suite passes; (3) with the patch the demo fails. Then restore the worktree to the clean state (git checkout -- . ; remove tests/demo_seed.rs). Never use `git stash` (the stash is shared with other worktrees). Keep the change small (a few lines to a few dozen). Report briefly what you did.""")
